@@ -347,4 +347,49 @@ theorem contextvars_isolated {V : Type} (c0 : Nat → V) (ops : List (Nat × Op 
       = (runCtx (fun _ => c0) [] (ops.filter fun o => o.1 = t)).2 :=
   runCtx_frame t ops _ _ [] [] rfl rfl
 
+/-! ### requests awaited one after the other in ONE task, and tasks spawned from it -/
+
+/-- A per-request context variable that the prologue of `generate_async` sets UNCONDITIONALLY before any
+    read: for every program of one task — any sequence of requests awaited in it, with tasks spawned at any
+    point (recursively) — and every initial context, every read made inside a request returns that request's
+    own value (never a value left behind by an earlier request of the same task or of the spawning task). -/
+theorem request_sets_its_own_options {V : Type} (p : Prog V) : ∀ (w : V),
+    ∀ e ∈ runProg prologueSet w p, e.2.2 = e.2.1 := by
+  induction p with
+  | done => intro w e he; simp [runProg] at he
+  | req id own n rest ih =>
+    intro w e he
+    simp only [runProg, List.mem_append, List.mem_replicate] at he
+    rcases he with ⟨_, rfl⟩ | he
+    · rfl
+    · exact ih _ e he
+  | spawn child rest ih1 ih2 =>
+    intro w e he
+    simp only [runProg, List.mem_append] at he
+    rcases he with he | he
+    · exact ih1 w e he
+    · exact ih2 w e he
+
+/-- … and more generally for any prologue after which the variable holds the request's own value -/
+theorem request_reads_own_of_prologue {V : Type} (prologue : V → V → V) (h : ∀ own w, prologue own w = own)
+    (p : Prog V) : ∀ (w : V), ∀ e ∈ runProg prologue w p, e.2.2 = e.2.1 := by
+  have : prologue = prologueSet := by funext own w; exact h own w
+  rw [this]; exact request_sets_its_own_options p
+
+/-- Counterexample for a conditional prologue (`if options: var.set(options)`): request 0 carries options 9,
+    request 1 (no options) awaited afterwards in the same task reads 9; so does request 2 in a task spawned
+    afterwards. (finite fact, `decide`) -/
+theorem conditional_prologue_counterexample :
+    runProg prologueIfSome none
+      (.req 0 (some 9) 1 (.req 1 none 1 (.spawn (.req 2 none 1 .done) .done)))
+      = [(0, some 9, some 9), (1, none, some 9), (2, none, some 9)] := by
+  decide
+
+/-- non-vacuity / sanity: the same program with the unconditional prologue -/
+example :
+    runProg prologueSet (none : Option Nat)
+      (.req 0 (some 9) 1 (.req 1 none 1 (.spawn (.req 2 none 1 .done) .done)))
+      = [(0, some 9, some 9), (1, none, none), (2, none, none)] := by
+  decide
+
 end NemoVerif.C15
